@@ -27,7 +27,7 @@ func vhDispose(storage SlabStorage, s Storable) {
 	}
 }
 
-//vh:prop C01 C05 C09
+//vh:prop C01 C05 C09 C06
 //vh:param leaves 2 3
 //vh:param perleaf 3 5
 func VH_C01_ArrayStep() {
